@@ -26,7 +26,7 @@ STREAMS = ['names-exhaustive-bytes', 'names-exhaustive-direct', 'names-random-by
 THEOREMS = ['inv_reachable', 'inv_step', 'at_most_one_owner_and_alive', 'step_never_raises',
             'request_semantics', 'reply_states_relation', 'release_semantics', 'disconnect_semantics',
             'signals_track_ownership', 'at_most_one_believer',
-            'queries_agree', 'refines_spec', 'run_refines_spec', 'codes_match_spec',
+            'queries_agree', 'refines_spec', 'run_refines_spec', 'spec_exec_sound', 'codes_match_spec',
             'client_flags_roundtrip', 'client_success_iff_owner']
 TRUSTED_BASE = [
     'Python dict (insertion order, in-place overwrite, del), list.remove / insert / append / `in`, '
@@ -74,6 +74,7 @@ class World:
         self.factory.bus = self.bus
         self.protos = {}          # k -> BusProtocol (every connection ever made)
         self.raw = []             # (k or None, payload) in the order the bus sent things
+        self.msgs = {}            # cache of call messages
         world = self
 
         class Transport(StringTransport):
@@ -194,14 +195,18 @@ class World:
                 return self.events(None, kind)
             name = NAMES[args[1]]
             if self.mode == 'bytes':
-                if kind == 'q':
-                    m = self.call_msg('RequestName', 'su', [name, args[2]])
-                elif kind == 'r':
-                    m = self.call_msg('ReleaseName', 's', [name])
-                elif kind == 'o':
-                    m = self.call_msg('GetNameOwner', 's', [name])
-                else:
-                    m = self.call_msg('ListQueuedOwners', 's', [name])
+                key = (kind,) + tuple(args[1:])
+                m = self.msgs.get(key)
+                if m is None:       # the same call bytes (and serial) are reused; the sender is the transport
+                    if kind == 'q':
+                        m = self.call_msg('RequestName', 'su', [name, args[2]])
+                    elif kind == 'r':
+                        m = self.call_msg('ReleaseName', 's', [name])
+                    elif kind == 'o':
+                        m = self.call_msg('GetNameOwner', 's', [name])
+                    else:
+                        m = self.call_msg('ListQueuedOwners', 's', [name])
+                    self.msgs[key] = m
                 p.dataReceived(m.rawMessage)
                 return self.events(m.serial, kind)
             # direct calls of the same methods
@@ -522,6 +527,14 @@ def run_fresh(mode, hist):
             v = judge(w, ref, tok, ev)
             if v is not None:
                 verdict = (i,) + v
+        elif verdict[1] == 'disconnected-client-still-queued' and not isinstance(ev, str):
+            # the same defect, one step further: the dead connection reaches the head of the queue
+            conn = set(w.connected())
+            for n, q in sorted(w.queues().items(), key=str):
+                if q and q[0] not in conn:
+                    verdict = (i, 'dead-queued-client-becomes-owner',
+                               'the owner of a name is a connection that has disconnected',
+                               {'queue': q, 'connected': sorted(conn), 'events': ev}, 'the owner is a connected client')
         if isinstance(ev, str):
             dead = True
     return fields, verdict
@@ -664,7 +677,15 @@ def selfcheck_restore(ctx, mode, prefix, nodes):
 def random_history(rng, length):
     conn, nxt, total = [], 1, 0
     hist = []
-    flagpool = list(range(8)) * 6 + [8, 16, 0xFFFFFFF8, 0xFFFFFFFF, 0x80000002, 9, 10, 12, 15 + 16]
+    flagpool = list(range(4)) * 9 + list(range(4, 8)) * 4 + [8, 16, 0xFFFFFFF8, 0xFFFFFFFF, 0x80000002, 9, 10, 12, 15 + 16]
+    if rng.random() < 0.5:
+        # start from a full house: four connections queued on one name (deep queues are rare otherwise)
+        n0 = rng.randrange(len(NAMES))
+        hist = ['c', 'c', 'c', 'c']
+        conn, nxt, total = [1, 2, 3, 4], 5, 4
+        order = [1, 2, 3, 4]
+        rng.shuffle(order)
+        hist += ['q%d,%d,%d' % (c, n0, rng.randrange(4)) for c in order]
     while len(hist) < length:
         r = rng.random()
         if not conn or (r < 0.07 and len(conn) < 4 and total < 9):
